@@ -54,3 +54,17 @@ def subtotal():
     body += '  | _ => none\n'
     body += '\nend Pycel.Gen\n'
     return body
+
+
+@table('AggErrors.lean')
+def agg_errors():
+    """the live `excelutil.ERROR_CODES` (what `x in ERROR_CODES` in _numerics / sumproduct accepts as an error value)"""
+    from pycel import excelutil
+    codes = sorted(excelutil.ERROR_CODES)
+    if not all(isinstance(c, str) for c in codes):
+        raise ValueError('ERROR_CODES holds a non-string')
+    body = 'namespace Pycel.Gen\n\n'
+    body += '/-- excelutil.ERROR_CODES, sorted: the texts `_numerics` and `sumproduct` treat as error values -/\n'
+    body += 'def aggErrorCodes : List String := [' + ', '.join(_lean_str(c) for c in codes) + ']\n'
+    body += '\nend Pycel.Gen\n'
+    return body
